@@ -50,7 +50,7 @@ RULE = ("exhaustive: every history of length <= 4 (quick) / <= 5 (thorough) over
         "tag; 85% of histories end by defining everything still undefined. Non-trivial: at least one "
         "rm/disconnect/rename in a history with at least two additions. Distinct by case hash.")
 
-PROF = H.profile(p_fail=0.04, gap_in_o=False, close=0.85,
+PROF = H.profile(p_fail=0.04, gap_in_o=False, close=0.85, copy=0.08, rm_copy=0.5,
                  ops={"add": 46, "rm": 14, "rmline": 7, "disconnect": 7, "rename": 10, "settag": 8, "deltag": 4})
 CASE_TIMEOUT = 60
 
@@ -99,6 +99,29 @@ def _diff(got, exp):
         if x in e:
             g.remove(x); e.remove(x)
     return "only in Gfa %r; only in text model %r" % (g, e)
+
+
+def neighbourhood(g, m, v):
+    """the dependants every surviving segment knows of (all its collections together) against the records of the
+    text model that mention the segment -> failure text or None"""
+    gfapy = lib.import_gfapy()
+    for s in g.lines:
+        if s.record_type != "S" or s.virtual:
+            continue
+        seen, got = set(), []
+        for coll in lib.BACKREF_COLLS["S"]:
+            for x in getattr(s, coll):
+                x = x.line if isinstance(x, gfapy.OrientedLine) else x
+                if not isinstance(x, gfapy.Line) or x.gfa is not g:
+                    return "neighbourhood-holds-removed-line", "%s of segment %s holds %r, which is not a line of the Gfa" % (
+                        coll, s.name, str(x))
+                if id(x) not in seen and not x.virtual:
+                    seen.add(id(x))
+                    got.append(H.norm_text(str(x), v))
+        exp = sorted(H.norm_rec(r, v) for r in m.recs if r[0] in "LCPEGFOU" and s.name in H.mentions(r, v))
+        if sorted(got) != exp:
+            return "neighbourhood-differs", "segment %s: %s" % (s.name, _diff(sorted(got), exp))
+    return None
 
 
 def oracle(case):
@@ -150,6 +173,9 @@ def oracle(case):
         exp = m.lines(drop_h=True)
         if got != exp:
             return ["text-differs-after-%s: %s [step %d %r]" % (H.step_kind(step), _diff(got, exp), k, step)]
+        nb = neighbourhood(g, m, v)
+        if nb is not None:
+            return ["%s-after-%s: %s [step %d %r]" % (nb[0], H.step_kind(step), nb[1], k, step)]
         if not H.has_virtual(g) and (step[0] != "add" or k == len(hist) - 1 or m.all_defined()):
             txt = m.text()
             if txt:
